@@ -9,7 +9,9 @@ import sys
 
 ROOT = os.path.join(os.path.dirname(os.path.dirname(os.path.abspath(__file__))), "seeded")
 NOTE = {
-    "C02-m1": "missed by construction: yaml.dump option in the text layer behind the contract stub",
+    "C02-m1": "not a VIOLATION by construction (yaml.dump option, text layer); the check ends with exit 3: its preflight finds that the "
+              "text-layer stub no longer describes what ODMLWriter('YAML').to_string does",
+    "C16-m4": "missed by construction: an lxml parser option (huge_tree) that matters only for documents nested deeper than ~330 levels",
     "C16-m2": "missed by construction: lxml entry point from_file(stream) on malformed XML (text layer)",
     "C19-m2": "missed by construction: differs only between processes with different hash seeds",
     "C12-m2": "missed: needs a linking Section nested inside another linking Section, outside the property's quantifier as read here",
@@ -40,6 +42,20 @@ def main():
         hits = re.findall(r"REPRODUCED (\S+?): (.+?) \|", chk)
         detected = bool(re.search(r"^VIOLATION property=", chk, re.M))
         files = sorted(set(re.findall(r"^\+\+\+ b/(\S+)", open(os.path.join(d, "patch.diff")).read(), re.M)))
+        exit_code = None
+        mres = re.search(r"^RESULT %s .*check_exit=(\S+)" % re.escape(name), ev, re.M)
+        if mres:
+            exit_code = mres.group(1)
+        else:
+            import glob
+            for path in sorted(glob.glob("/tmp/seedres*.txt"), key=os.path.getmtime):
+                for line in open(path):
+                    mm = re.match(r"RESULT %s .*check_exit=(\S+)" % re.escape(name), line)
+                    if mm:
+                        exit_code = mm.group(1)
+            old_meta = os.path.join(d, "meta.json")
+            if exit_code is None and os.path.exists(old_meta):
+                exit_code = json.load(open(old_meta)).get("check_exit")
         meta = {
             "breaks_property": prop,
             "files_changed": files,
@@ -51,6 +67,7 @@ def main():
                 "how": "tools/seed_eval.sh %s <scratch> %s (scratch worktree of /repo HEAD, removed afterwards)" % (d, checked),
             },
             "check_run": "VERIF_REPO=<scratch> ./vrun check %s --tier quick" % checked,
+            "check_exit": exit_code,
             "detected": detected,
             "detected_by": sorted(set(h[0] for h in hits))[:4],
             "first_report": hits[0][1] if hits else None,
